@@ -337,7 +337,11 @@ pub fn inline_function_call(
     // We map the entry block in the inlined function (which we know must exist) to our `pre_block`
     // from the split above.  We'll start appending inlined instructions to that block rather than
     // a new one (with a redundant branch to it from the `pre_block`).
+    //
+    // Only the reachable blocks are inlined (see the traversal below). No block is created for
+    // an unreachable one: it would stay empty, without a terminator.
     let inlined_fn_name = inlined_function.get_name(context).to_owned();
+    let inlined_post_order = compute_post_order(context, &inlined_function);
     let mut block_map = HashMap::new();
     let mut block_iter = context.functions[inlined_function.0]
         .blocks
@@ -345,6 +349,9 @@ pub fn inline_function_call(
         .into_iter();
     block_map.insert(block_iter.next().unwrap(), pre_block);
     block_map = block_iter.fold(block_map, |mut block_map, inlined_block| {
+        if !inlined_post_order.block_to_po.contains_key(&inlined_block) {
+            return block_map;
+        }
         let inlined_block_label = inlined_block.get_label(context);
         let new_block = function
             .create_block_before(
@@ -374,10 +381,7 @@ pub fn inline_function_call(
     });
 
     // Use a reverse-post-order traversal to ensure that definitions are seen before uses.
-    let inlined_block_iter = compute_post_order(context, &inlined_function)
-        .po_to_block
-        .into_iter()
-        .rev();
+    let inlined_block_iter = inlined_post_order.po_to_block.into_iter().rev();
     // We now have a mapping from old blocks to new (currently empty) blocks, and a mapping from
     // old values (locals and args at this stage) to new values.  We can copy instructions over,
     // translating their blocks and values to refer to the new ones.  The value map is still live
